@@ -189,6 +189,7 @@ def run(ck):
                      "not-found-both", "upload-timeout-both", "read-loop-over-64k",
                      "large-duplicate-write", "large-write-conflict-in-later-block", "large-shifted-overlap-write",
                      "rtw-via-adapter", "rtw-via-client",
+                     "slot-readv-with-missing-shares-both", "slot-readv-missing-before-existing-both",
                      "advisory-written-both:non-ascii:immutable", "advisory-written-both:non-ascii:mutable",
                      "advisory-written-both:ascii:immutable", "advisory-written-both:ascii:mutable",
                      "rtw-test-must-be-new-on-existing-refused-both", "rtw-test-must-be-new-on-absent-passed-both",
@@ -831,13 +832,20 @@ def one_case(ck, ci, rng):
             cur = mut_current(si) if si in mut_sis else {}
             r = rng.random()
             missing = False
+            missing_before_existing = False
             if r < 0.35:
                 which = []
-            elif r < 0.95 or not cur:
+            elif r < 0.75 or not cur:
                 which = sorted(rng.sample(sorted(cur), rng.randint(1, len(cur)))) if cur else []
-            else:
-                which = sorted(cur)[:1] + [max(cur) + 1 + rng.randrange(3)]
+            else:       # present and absent share numbers in any order (a missing one before / between / after existing ones)
+                present = rng.sample(sorted(cur), rng.randint(1, len(cur)))
+                gone = rng.sample([n for n in range(0, 9) if n not in cur], rng.randint(1, 2))
+                which = present + gone
+                rng.shuffle(which)
                 missing = True
+                first_gone = min(which.index(g) for g in gone)
+                if any(which.index(p) > first_gone for p in present):
+                    missing_before_existing = True
             readv = []
             for _ in range(rng.randint(1, 3)):
                 L = len(next(iter(cur.values()))) if cur else 10
@@ -856,9 +864,14 @@ def one_case(ck, ci, rng):
 
             def norm(v):
                 return {int(k): [bytes(x) for x in vs] for k, vs in v.items()}
-            step("readv", "slot_readv shares=%s readv=%s" % (which, readv),
-                 lambda: ist.slot_readv(si, which, readv), lambda: B.slot_readv(si, which, readv), norm, norm,
-                 known=known if (missing or zero) else None, readonly=True)
+            ra, rb = step("readv", "slot_readv shares=%s readv=%s" % (which, readv),
+                          lambda: ist.slot_readv(si, which, readv), lambda: B.slot_readv(si, which, readv), norm, norm,
+                          known=known if (missing or zero) else None, readonly=True)
+            if ra[0] == "ok" and rb[0] == "ok" and ra[1] == rb[1]:
+                if missing:
+                    ck.hit("slot-readv-with-missing-shares-both")
+                if missing_before_existing:
+                    ck.hit("slot-readv-missing-before-existing-both")
 
         def op_mut_chunk():
             si = rng.choice(mut_sis)
